@@ -111,6 +111,9 @@ func c20Decoded(k *core.Case, wire []byte, tail []byte, src string, dec func(b [
 		}
 	}
 	k.Count("decoded_and_scribbled_"+src, 1)
+	if k.WantSample() && len(wire) < 200 {
+		k.Sample(M{"check": "decode, overwrite the receive buffer (4 placements), re-observe; flip every reachable []byte, buffer unchanged", "source": src, "input": core.Hex(wire)})
+	}
 }
 
 func stripIdx(s string) string {
